@@ -36,4 +36,12 @@ def join (sep : List Char) : List (List Char) → List Char
   | [x] => x
   | x :: y :: r => x ++ sep ++ join sep (y :: r)
 
+/-- `strings.LastIndexByte(s, c)`. -/
+def lastIdx (c : Char) (s : List Char) : Option Nat :=
+  (s.reverse.findIdx? (· == c)).map fun r => s.length - 1 - r
+
+/-- `strings.TrimSuffix(s, suf)`. -/
+def trimSuffix (s suf : List Char) : List Char :=
+  if suf.isSuffixOf s then s.take (s.length - suf.length) else s
+
 end Pithos.Ascii
